@@ -184,5 +184,5 @@ func TestVerifC07Flv(t *testing.T) {
 			return append(out, make([]byte, n-24)...)
 		}},
 	}
-	vC07Drive(t, decs, helpers, fams, 1500, 60000)
+	vC07Drive(t, decs, helpers, fams, 800, 60000)
 }
